@@ -346,6 +346,20 @@ def prepare(res: Result, theorems: list[str], imports: list[str]):
                 broken.append((f"theorem {t} depends on disallowed axioms {a}", ""))
             else:
                 discharged += 1
+    # thorough tier: the compiled modules holding this property's theorems are replayed by `leanchecker`, the toolchain's
+    # independent re-checker of .olean files (guards against a compiled file that does not match what the kernel accepted)
+    if res.tier == "thorough" and info["build"] and os.environ.get("VERIF_NO_LEANCHECKER") != "1":
+        t0 = time.time()
+        mods = [m for m in dict.fromkeys(imports) if m.startswith("PauLieVerif.")]
+        try:
+            p = subprocess.run(["lake", "env", "leanchecker"] + mods, cwd=LEAN, capture_output=True, text=True, timeout=1800)
+            okc = p.returncode == 0
+            tail = (p.stdout + p.stderr)[-600:]
+        except Exception as e:
+            okc, tail = False, repr(e)
+        res.cov["leanchecker"] = {"modules": len(mods), "ok": okc, "wall_s": round(time.time() - t0, 1)}
+        if not okc:
+            broken.append(("leanchecker rejected a compiled module of this property", tail))
     res.cov["obligations"] = len(theorems)
     res.cov["discharged"] = discharged
     res.cov["theorems"] = {t: info["axioms"].get(t) for t in theorems}
